@@ -14,7 +14,7 @@ ID = 'C01'
 LEVEL = 'exploration'
 RULE = ('Each run = seeded configuration (stub binary / stub ternary with 1-3 precipitate phases, real Al-Zr / Ni-Cr-Al / Al-Mg-Si; all five nucleation site types, '
         'four shapes, three ways of specifying molar volume with ratios 0.5-2, infinite / no precipitate diffusion, fixed and adaptive grids, constraint switches) and 1-4 solve calls '
-        'with seeded durations, iterators and step fractions; monitor state persists across calls. Non-trivial = at least 5 recorded steps with precipitates present; '
+        'with seeded durations, iterators and step fractions; monitor state persists across calls. Configurations also vary: composition floors inside the visited range (0.1-0.9 x0), minimum radius / dissolution / nucleation-rate constraints, effective-diffusion switch, incubation theta, zero grain-boundary energy, aspect ratio 1 and radius-dependent aspect ratios, and in 10%/12% of the stub runs a predecessor / sibling model built in the same process. Non-trivial = at least 5 recorded steps with precipitates present; '
         'distinct = distinct record digest; signature = (backend, phases, events: precipitates, extend, remesh, clamp).')
 ASSUMPTIONS = ['Reference volume factor from the Clemm-Fisher formulas written independently (ksim.refs); molar volumes from the run record, not from the model objects.',
                'Steps with the documented clamp of a negative matrix composition and steps with total fraction >= 1 are exempt from the identity (counted).',
